@@ -161,11 +161,46 @@ func init() {
 				rgr.compareWithModel(model.FromImpl(lx.MustRead(rawProg(i))), []string{"e", "x"}, r, true)
 			},
 		}
+		// a throw inside the update function of a swap! whose atom changed meanwhile (the function itself
+		// resets it): the thrown value is delivered, once, from the application that threw
+		type fixedCase struct{ prog, want, trace string }
+		atomCases := []fixedCase{
+			{`(do (def a (atom 0)) (list (try (swap! a (fn [x] (reset! a (+ x 10)) (t! x) (throw {:seen x}))) (catch e e)) (deref a)))`, `({:"seen" 0} 10)`, `[0]`},
+			{`(do (def a (atom 0)) (try (swap! a (fn [x] (reset! a 5) (try (throw 1) (catch e (t! :h)) (finally (t! :f))) (throw :out))) (catch e (list e (deref a)))))`, `(:"out" 5)`, `[:"h" :"f"]`},
+			{`(do (def a (atom 0)) (def b (atom 0)) (list (try (swap! a (fn [x] (swap! b inc) (reset! a 7) (throw (list x (deref b))))) (catch e e)) (deref a) (deref b)))`, `((0 1) 7 1)`, `[]`},
+			{`(do (def a (atom 1)) (list (try (swap! a (fn [x] (t! x) (throw x))) (catch e e)) (swap! a inc)))`, `(1 2)`, `[1]`},
+		}
+		var rga *evalRig
+		famA := &vf.Family{
+			Name: "throws-inside-swap", InProc: true,
+			Bounds:   fmt.Sprintf("%d fixed programs: an update function that changes its atom (or another one) and then throws; expected value and effects written down by hand", len(atomCases)),
+			Setup:    func(t string) { tier = t; rga = newEvalRig(true); rga.ntTraceOnly = true },
+			N:        func(string) int64 { return int64(len(atomCases)) },
+			Describe: func(i int64) string { return atomCases[i].prog },
+			Run: func(i int64, r *vf.Rec) {
+				c := atomCases[i]
+				out, _ := rga.runImpl(lx.MustRead(c.prog), 3000)
+				r.Exec(1)
+				r.NT()
+				got := "panic"
+				switch {
+				case out.Panic != nil:
+					got = "panic " + out.Panic.String()
+				case out.IsErr:
+					got = "error " + out.ErrMsg
+				default:
+					got = out.Val.String()
+				}
+				if got != c.want || traceStr(out.Trace) != c.trace {
+					r.Violation("a throw inside a swap! update function is not delivered once and unchanged", fmt.Sprintf("%s\nexpected %s with effects %s, got %s with effects %s", c.prog, c.want, c.trace, got, traceStr(out.Trace)))
+				}
+			},
+		}
 		return &vf.Check{
 			ID: "C03", Level: "model_checking",
 			Rule:        "every try/catch/finally nest of the bounded grammar runs on the real EVAL and on the definitional interpreter (handler value returned as a value, catch variable scoped to the handler, finally exactly once after body and handler, outcome unchanged by finally); result, thrown payload via ErrorValue, errors.Is for Go errors, and the ordered effect trace must agree; non-trivial = has effects",
 			Assumptions: []string{"a finally body that itself fails is swallowed (README: 'for side effects only')", "payload of unbound-symbol / arity / domain errors is opaque and compared by kind only"},
-			Families:    []*vf.Family{fam, famD, famR},
+			Families:    []*vf.Family{fam, famD, famR, famA},
 		}
 	})
 }
